@@ -77,6 +77,17 @@ pub fn mbc(args: &[String]) {
         if bad.len() < 4 { bad.push(json!({"v": v, "rb": rb, "mb": mb, "bank0": b0, "exp": exp[v]})); }
       }
     }
+    // a 16-bit store (LD (a16),SP, an interrupt's pushes) is two byte stores, low byte first: the registers it leaves behind
+    // are those of the two byte writes the specification has just been compared with
+    for w in [0x0105u16, 0x0802, 0xff00, 0x00ff, 0x2103, 0x0180].iter() {
+      memory_write_byte(p, 0x2000, rom); memory_write_byte(p, 0x4000, hi); memory_write_byte(p, 0x6000, mode);
+      memory_write_byte(p, a, *w as u8); memory_write_byte(p, a.wrapping_add(1), (*w >> 8) as u8);
+      let want = observe_banks(&mut core);
+      memory_write_byte(p, 0x2000, rom); memory_write_byte(p, 0x4000, hi); memory_write_byte(p, 0x6000, mode);
+      memory_write_word(p, a, *w);
+      let got = observe_banks(&mut core);
+      if got != want && bad.len() < 4 { bad.push(json!({"v": format!("word {:#06x}", w), "rb": got.0, "mb": got.1, "bank0": got.2, "exp": [want.0, want.1]})); }
+    }
     if !bad.is_empty() {
       let line = json!({"kind": "mismatch", "t": case["t"], "rc": case["rc"], "mc": case["mc"], "pre": case["pre"], "a": case["a"], "bad": bad});
       out.extend_from_slice(line.to_string().as_bytes()); out.push(b'\n');
